@@ -291,6 +291,8 @@ def run(repo: Repo, rep: Report, tier: str) -> None:
         under_cmd = any(c in ("control_header_byte&1", "control_header_byte&3==3", "control_header_byte&1==1", "control_header_byte&1!=0") or "control_header_byte&1" in c for c in conds)
         rep.check(under_cmd, "id-origin", "dimse_messages.DIMSEMessage.decode_msg", w_ctx[0], "the message's context id is not taken from the PDV that carries the command set (the write is outside the `control_header_byte & 1` branch): a request whose command set arrives under a rejected / unknown id and whose data-set fragments arrive under an accepted one ends up with the accepted id, passes the accepted-context guards and reaches the handler", mod=msgs, node=w_ctx[0])
     rep.extra["trigger_sites"] = [f"{s}.{qualname(c)}:{en}" for s, m, c, en in sites]
+    rep.rule("guarded-lookup", "every lookup in the accepted-context table by a peer-chosen id expects the miss (try / except KeyError or a membership test)")
+    rep.floor("accepted-context lookups", check_guarded_lookup(repo, rep), 3)
     # ---- state is per instance -------------------------------------------------------------------
     from ..lints import per_instance_state
     rep.rule("per-instance-state", "mutable state of the protocol objects is created per instance, never as a class attribute")
@@ -333,3 +335,47 @@ def _paired_from_get_msg(fn: ast.AST, call: ast.Call, a_msg: str, a_id: str) -> 
         return False
     sts = ins.get(site[0].id, set())
     return bool(sts) and all(dm is not None and dm == di and dm >= 0 for dm, di in sts)
+
+
+LOOKUP_ALLOWED = {
+    ("dimse_messages", "DIMSEMessage.decode_msg"): "runs inside DIMSEServiceProvider.receive_primitive's try/except (C02 escape rule): a KeyError becomes Evt19 -> A-ABORT",
+}
+
+
+def check_guarded_lookup(repo: Repo, rep: Report, rule: str = "guarded-lookup") -> int:
+    """The table of accepted contexts is indexed with a context id the peer chose. Every such lookup must
+    expect the miss (try / except KeyError, or a membership test before it): an unguarded one raises KeyError in
+    the association's reactor thread, which ends that thread - the association keeps its socket and its
+    'established' flag but no longer serves anything, and it drops out of the AE's count of active
+    associations."""
+    n = 0
+    for mname, m in sorted(repo.modules.items()):
+        short = mname.replace("pynetdicom.", "")
+        if short.startswith(("apps", "tests", "benchmarks")):
+            continue
+        for x in ast.walk(m.tree):
+            if not (isinstance(x, ast.Subscript) and isinstance(x.ctx, ast.Load) and isinstance(x.value, ast.Attribute) and x.value.attr == "_accepted_cx"):
+                continue
+            n += 1
+            q = qualname(x)
+            fq = f"{short}.{q}"
+            key = norm(x.slice)
+            ok, how = False, ""
+            t = enclosing(x, (ast.Try,))
+            while t is not None and not ok:
+                if any(x is y for s_ in t.body for y in ast.walk(s_)) and any(h.type is None or any(k in norm(h.type) for k in ("KeyError", "LookupError", "Exception")) for h in t.handlers):
+                    ok, how = True, "inside try / except KeyError"
+                t = enclosing(t, (ast.Try,))
+            g = enclosing(x, (ast.If,))
+            while g is not None and not ok:
+                tt = norm(g.test)
+                if tt.replace(" ", "") in (f"{key}in{norm(x.value)}".replace(" ", ""),) and any(x is y for s_ in g.body for y in ast.walk(s_)):
+                    ok, how = True, f"under `if {tt}`"
+                g = enclosing(g, (ast.If,))
+            if not ok and (short, q) in LOOKUP_ALLOWED:
+                ok, how = True, LOOKUP_ALLOWED[(short, q)]
+            if ok:
+                rep.ok(rule, f"{fq} :: {norm(x)}", how)
+            else:
+                rep.fail(rule, fq, enclosing(x, (ast.stmt,)) or x, f"`{norm(x)}` indexes the accepted-context table with an id that comes from the peer without expecting a miss: a message on a context id that was never accepted raises KeyError in the thread that serves the association, which ends it - the association stays 'established' with its socket open, serves nothing, and is no longer counted among the AE's active associations", mod=m, node=x)
+    return n
